@@ -222,7 +222,8 @@ ENTRY = {
                             dict(a='fvec', b='fvec', n='shape'),
                             dict(a='fvec', b='num', n='int:n', reps='int:m')],
     'grid.ind_qtt_to_tt': [dict(I_qtt='I[m,2d]', q=L(2)),
-                           dict(I_qtt='i[2d]', q=L(2))],
+                           dict(I_qtt='i[2d]', q=L(2)),
+                           dict(I_qtt='I[m,9d]', q=L(9))],
     'grid.ind_to_poi': [dict(I='i[d]', a='fvec', b='fvec', n='i[d]'),
                         dict(I='I[m,d]', a='num', b='num', n='int:n'),
                         dict(I='i[d]', a='fvec', b='fvec', n='shape',
@@ -461,8 +462,8 @@ def build(spec, name, d, label=True):
             tok = tok.strip()
             if tok == 'd':
                 dims.append(Poly.const(d))
-            elif tok == '2d':
-                dims.append(Poly.const(2 * d))
+            elif re.match(r'^\d+d$', tok):
+                dims.append(Poly.const(int(tok[:-1]) * d))
             elif tok == 'd+1':
                 dims.append(Poly.const(d + 1))
             elif tok.isdigit():
